@@ -42,6 +42,14 @@ func measure(f func()) uint64 {
 func c08Handle(req string) string {
 	f := strings.Split(req, " ")
 	entry, b := f[0], unhex(f[1])
+	// the decoders are handed a slice with spare capacity behind it (as the allocator's pages and any pooled buffer have):
+	// a decoder may look at len(b), never at what lies beyond it
+	spare := make([]byte, len(b)+96)
+	copy(spare, b)
+	for i := len(b); i < len(spare); i++ {
+		spare[i] = 0xaa
+	}
+	b = spare[:len(b)]
 	var out string
 	var pan bool
 	alloc := measure(func() {
